@@ -1355,9 +1355,9 @@ seq_t dtw_warping_paths_ndim(seq_t *wps,
         rvalue = wps[final_wpsi];
     } else if (return_dtw) {
         seq_t mir_value = INFINITY;
-        idx_t mir_rel = 0;
+        idx_t mir_rel = l1;  // no smaller value found: nothing is skipped
         seq_t mic_value = INFINITY;
-        idx_t mic = 0;
+        idx_t mic = l2;  // no smaller value found: nothing is skipped
         // Find smallest value in last column
         if (settings->psi_1e != 0) {
             wpsi = final_wpsi;
@@ -1743,9 +1743,9 @@ seq_t dtw_warping_paths_ndim_euclidean(seq_t *wps,
         rvalue = wps[final_wpsi];
     } else if (return_dtw) {
         seq_t mir_value = INFINITY;
-        idx_t mir_rel = 0;
+        idx_t mir_rel = l1;  // no smaller value found: nothing is skipped
         seq_t mic_value = INFINITY;
-        idx_t mic = 0;
+        idx_t mic = l2;  // no smaller value found: nothing is skipped
         // Find smallest value in last column
         if (settings->psi_1e != 0) {
             wpsi = final_wpsi;
